@@ -31,6 +31,7 @@ func check(c corsref.Case, st *rig.Stats) error {
 	nontriv := false
 	var classes []string
 	for i, q := range c.Reqs {
+		w.Advance(i)
 		o := w.Serve(q)
 		if o.Panicked {
 			classes = append(classes, "panic(not-judged-here)")
@@ -117,6 +118,14 @@ func check(c corsref.Case, st *rig.Stats) error {
 			}
 		} else {
 			classes = append(classes, "allowed-simple-request")
+		}
+	}
+	if c.Sibling != nil {
+		classes = append(classes, "sibling-router-cut-from-the-same-option-arrays")
+	}
+	for _, rt := range c.Routes {
+		if len(rt.Remove) > 0 && rt.RemoveAt > 0 && rt.RemoveAt < len(c.Reqs) {
+			classes = append(classes, "methods-removed-between-two-requests")
 		}
 	}
 	st.Eval(c, nontriv, classes...)
